@@ -196,7 +196,7 @@ def shared_equal_defaults(ctx):
 
 
 def run(ctx):
-    n = 150 if ctx.tier == "quick" else 9000
+    n = 450 if ctx.tier == "quick" else 9000
     if ctx.replay:
         c = ctx.replay["case"]
         if "spec" not in c:
